@@ -15,8 +15,8 @@ import lifecycle_common as lc
 
 LEVEL = "model_checking"
 
-FAMILIES = ("hdr", "path", "redir", "direct", "tmo")
-ACT_DEFECTS = ("RewriteCaseSensitive", "VhostBeforeRoute", "RouterBeforeVhost", "AppendNoSeparator", "RemoveBeforeAdd", "RegexOverPrefix",
+FAMILIES = ("hdr", "path", "redir", "direct", "tmo", "pfc")
+ACT_DEFECTS = ("UnknownVarIsVariable", "MissingVarDash", "PercentTrimmed", "PfcRouteFallsBackToVhost", "RewriteCaseSensitive", "VhostBeforeRoute", "RouterBeforeVhost", "AppendNoSeparator", "RemoveBeforeAdd", "RegexOverPrefix",
                "PrefixRewriteKeepsPrefix", "AutoHostOverHostRewrite", "AutoHostBeforeMutation", "RedirectKeepsPort",
                "RedirectDropsQuery", "RedirectDefault302", "HeaderOverProtocol", "TryNotDisabled")
 RETRY_DEFECTS = ("FinalizeOnRetry", "RetryOnOverflow", "RetryOnIgnored", "StatusListIgnored", "BudgetOffByOne", "BudgetIsNumRetries",
@@ -31,13 +31,21 @@ def levels_class(lv):
             kinds.add("append" if op["a"] else "overwrite")
         if lv[n]["rm"]:
             kinds.add("remove")
-    return "levels=" + "+".join(used)
+    var = any(op["v"].startswith("%") and op["v"].endswith("%") and len(op["v"]) > 2 for n in used for op in lv[n]["add"])
+    return "levels=" + "+".join(used) + (":variable-values" if var else "")
 
 
 def act_signature(e, kind):
     """failing input class: the family, what disagreed, and the configured fields that bear on it"""
+    sig = act_signature1(e, kind)
+    return sig + (":http2" if e.get("proto") == "h2" else "")
+
+
+def act_signature1(e, kind):
     c = e.get("c", {})
     ev = e["ev"]
+    if ev == "pfc":
+        return "C17:per-filter-config:%s" % kind
     if ev == "hdr":
         side = e["rc"] if kind == "response-headers" else c
         return "C17:hdr:%s:%s" % (kind, levels_class(side["lv"]))
@@ -118,14 +126,33 @@ def run(ctx):
     for f in FAMILIES:
         fam[f].sort(key=lambda x: json.dumps(x, sort_keys=True))
     # the response side of a header case is another header case (a VERIF_SEED permutation): both sides see every case
-    perm = list(range(len(fam["hdr"])))
+    envs = sorted(menu[0]["envs"], key=lambda x: json.dumps(x, sort_keys=True))
+
+    def active(lv):
+        return sum(1 for n in ("route", "vhost", "router") if lv[n]["add"] or lv[n]["rm"])
+    hdr_all = [x["c"] for x in fam["hdr"]]
+    sampled_hdr = False
+    if q:       # all cases with at most two levels in use, a VERIF_SEED sample of those with three
+        three = [c for c in hdr_all if active(c["lv"]) == 3]
+        hdr_cases = [c for c in hdr_all if active(c["lv"]) < 3] + rng.sample(three, min(len(three), 1800))
+        sampled_hdr = len(three) > 1800
+    else:
+        hdr_cases = hdr_all
+    # what the variables resolve to is drawn per case from the environments TLC lists (the model checks all of them)
+    hdr_cases = [dict(c, **rng.choice(envs)) for c in hdr_cases]
+    perm = list(range(len(hdr_cases)))
     rng.shuffle(perm)
     act = [menu[0]]
-    for i, x in enumerate(fam["hdr"]):
-        act.append(dict(fam="hdr", c=x["c"], rc=fam["hdr"][perm[i]]["c"]))
-    rest = fam["path"] + fam["redir"] + fam["direct"] + fam["tmo"]
+    hdr_lines = [dict(fam="hdr", c=c, rc=hdr_cases[perm[i]]) for i, c in enumerate(hdr_cases)]
+    rest = fam["path"] + fam["redir"] + fam["direct"] + fam["tmo"] + fam["pfc"]
+    # protocol dimension: a VERIF_SEED sample of the header and rewrite cases (and the per_filter_config cases) is repeated
+    # through an HTTP/2 listener and cluster; the HTTP/2 upstream answers with a trailer
+    h2 = [dict(x, proto="h2") for x in rng.sample(hdr_lines, min(len(hdr_lines), 300 if q else 1500))]
+    h2 += [dict(x, proto="h2") for x in rng.sample(fam["path"], min(len(fam["path"]), 150 if q else 700))]
+    h2 += [dict(x, proto="h2") for x in fam["pfc"]]
+    rest = rest + h2
     rng.shuffle(rest)
-    act += rest
+    act += hdr_lines + rest
     actfile = os.path.join(ctx.tmp, "act_cases.jsonl")
     with open(actfile, "w") as fh:
         for x in act:
@@ -158,7 +185,9 @@ def run(ctx):
         h = rng.choice(nonidem if i % 2 == 0 else hdrs)
         rh = rng.choice(hdrs)
         rw = rng.choice(rws)
+        env = rng.choice(envs)
         a = dict(lv=h["lv"], hin=h["hin"], rlv=rh["lv"], rhin=rh["hin"], pr=rw["pr"], rr=rw["rr"], path=menu[0]["retrypath"],
+                 src=env["src"], rsrc=env["rsrc"],
                  rxp=rxm.get(rw["rr"], {}).get("pattern", ""), rxs=rxm.get(rw["rr"], {}).get("subst", ""))
         withact.append(dict(x, act=a))
     retry = withact
